@@ -247,6 +247,12 @@ func (s *SencBox) ParseReadBox(perSampleIVSize byte, saiz *SaizBox) error {
 	for perSampleIVSize := byte(0); perSampleIVSize <= 16; perSampleIVSize += 8 {
 		sr.SetPos(startPos)
 		ok = s.parseAndFillSamples(sr, perSampleIVSize)
+		if ok && !s.sampleInfoSizesMatch(saiz) {
+			// The bytes can be read with this IV size, but not with the sizes signalled in saiz
+			s.IVs = nil
+			s.SubSamples = nil
+			ok = false
+		}
 		if ok {
 			break // We have found a working perSampleIVSize
 		}
@@ -256,6 +262,27 @@ func (s *SencBox) ParseReadBox(perSampleIVSize byte, saiz *SaizBox) error {
 	}
 	s.readButNotParsed = false
 	return nil
+}
+
+// sampleInfoSizesMatch - check that the size of each parsed sample entry is what saiz says (if it is available)
+func (s *SencBox) sampleInfoSizesMatch(saiz *SaizBox) bool {
+	if saiz == nil || saiz.SampleCount != s.SampleCount {
+		return true // Nothing to compare with
+	}
+	if saiz.DefaultSampleInfoSize == 0 && len(saiz.SampleInfo) != len(s.SubSamples) {
+		return true
+	}
+	for i, subSamples := range s.SubSamples {
+		size := int(s.perSampleIVSize) + 2 + 6*len(subSamples)
+		wantedSize := int(saiz.DefaultSampleInfoSize)
+		if wantedSize == 0 {
+			wantedSize = int(saiz.SampleInfo[i])
+		}
+		if size != wantedSize {
+			return false
+		}
+	}
+	return true
 }
 
 // parseAndFillSamples - parse and fill senc samples given perSampleIVSize
